@@ -37,8 +37,8 @@ def inputs(chk):
 def generated_near_valid(chk, rng):
     """well-typed programs of tools/capygen.py (the fragment of CapySem.tla: pointers, slices, sum
     types, generics-free functions, varargs, casts, ...) with ONE breaking change each: a
-    mutability-, type- or scope-breaking change made on the abstract syntax, or a single-token
-    mutation of the text"""
+    mutability-, type-, scope- or arity-breaking change made on the abstract syntax, or a
+    single-token mutation of the text"""
     import copy
     import capygen
     from props import c08
@@ -47,9 +47,9 @@ def generated_near_valid(chk, rng):
     for k in range(n):
         g = capygen.Gen(chk.seed * 7001 + 70000 + k, size=8 + k % 10)
         p = g.program()
-        kind = ("mut", "type", "scope", "tok", "none")[k % 5]
+        kind = ("mut", "type", "scope", "tok", "none", "argdrop", "argdrop", "argadd")[k % 8]
         q = copy.deepcopy(p)
-        lets, uses = [], []
+        lets, uses, calls = [], [], []
 
         def walk(x):
             if isinstance(x, dict):
@@ -57,6 +57,8 @@ def generated_near_valid(chk, rng):
                     lets.append(x)
                 if x.get("e") == "var":
                     uses.append(x)
+                if x.get("e") == "call" and x.get("args"):
+                    calls.append(x)
                 for v in x.values():
                     walk(v)
             elif isinstance(x, list):
@@ -71,6 +73,16 @@ def generated_near_valid(chk, rng):
             l["ty"] = rng.choice([capygen.BOOL, capygen.I32, capygen.REC_P, ("arr", 2, capygen.U8), capygen.CHAR])
         elif kind == "scope" and uses:
             rng.choice(uses)["n"] = rng.choice(["undefined_zz", "v_9999", "main"])
+        elif kind in ("argdrop", "argadd") and calls:
+            # a call with one argument too few / too many; calls of the vararg functions first
+            # (their regular parameters stand between / after vararg parameters)
+            va = [c for c in calls if c["f"].startswith("va_")]
+            c = rng.choice(va if va and rng.random() < 0.7 else calls)
+            if kind == "argdrop":
+                fixed = [j for j, a in enumerate(c["args"]) if not (isinstance(a, dict) and a.get("varargs"))]
+                del c["args"][rng.choice(fixed) if fixed else rng.randrange(len(c["args"]))]
+            else:
+                c["args"].append({"e": "bool", "v": True})
         text = c08.prelude() + capygen.Render().program(q)
         if kind == "tok":
             text = corpus.mutate_tokens(rng, text, 1)
